@@ -822,6 +822,11 @@ class Builder:
                     if red_aliases and g.p(25):
                         a_ = g.choice(red_aliases)
                         t = g.choice([a_, ('nullable', a_), ('list', ('nullable', a_), None, None)])
+                    elif cfg.annot_bias and g.p(30):
+                        # directly redactable members (seeded C13_7: a nullable tag annotated itself)
+                        base = g.choice([prim('String'), prim('Int64'), prim('UInt64'), prim('Float64')])
+                        t = g.choice([base, ('nullable', base), ('nullable', base), ('list', base, None, None),
+                                      ('nullable', ('list', base, None, None))])
                     elif cfg.union_struct_bias and g.p(30):
                         # struct-valued members, preferring structs with enumerated subtypes:
                         # their wire form nests under the tag key instead of being flattened
